@@ -6,7 +6,7 @@
    IS the parent waker of that poll, so firing it wakes that parent directly. *)
 From Coq Require Import List Arith Bool.
 Import ListNotations.
-Require Import ScanFull InstsFull Pass ObligJoin ObligMZ ObligGroups NonSel C11Groups PassProofs PassC01.
+Require Import ScanFull InstsFull Pass ObligJoin ObligMZ ObligGroups FireTotal NonSel C11Groups PassProofs PassC01.
 
 (* ---- selective strategy: in every state reached at or after a poll that returned Pending, a signalled child implies that the
         newest parent waker has been woken (for all sizes, child behaviours, histories of polls / wakes through any handle / drop / group ops) *)
@@ -84,6 +84,21 @@ Print Assumptions C01_join. Print Assumptions C01_merge. Print Assumptions C01_z
 Print Assumptions C01_join_quiescent. Print Assumptions C01_merge_quiescent. Print Assumptions C01_zip_quiescent. Print Assumptions C01_group_quiescent.
 Print Assumptions C01_join_nonsel. Print Assumptions C01_merge_nonsel. Print Assumptions C01_zip_nonsel. Print Assumptions C01_group_nonsel.
 Print Assumptions C01_race. Print Assumptions C01_race_ok. Print Assumptions C01_chain. Print Assumptions C01_wait_until.
+
+
+(* ---- firing never panics (selective strategy): for every handle ever handed out - current, stale, of a finished or removed child - the slot
+        it names exists in the readiness table and a parent waker is registered, so InlineWaker::wake neither indexes out of bounds nor hits
+        its `expect("parent_waker not available")`.  (In the non-selective strategy and for the pass-through combinators a handle IS a parent
+        waker: the theorems above.)  fire_panics is defined in Model/ScanFull.v next to do_fire, whose totalised branches it names. *)
+Theorem C01_fire_total_join tuple tryj scs ops c k : fire_panics jst j_slots (join_world true tryj tuple scs ops) c k = false.
+Proof. exact (join_fire_total tuple tryj scs ops c k). Qed.
+Theorem C01_fire_total_merge scs ops c k : fire_panics mst m_n (merge_world true scs ops) c k = false.
+Proof. exact (merge_fire_total scs ops c k). Qed.
+Theorem C01_fire_total_zip scs ops c k : fire_panics zst z_n (zip_world true scs ops) c k = false.
+Proof. exact (zip_fire_total scs ops c k). Qed.
+Theorem C01_fire_total_group stream cap0 ops c k : fire_panics gst g_slots (group_world true stream cap0 ops) c k = false.
+Proof. exact (group_fire_total stream cap0 ops c k). Qed.
+Print Assumptions C01_fire_total_join. Print Assumptions C01_fire_total_merge. Print Assumptions C01_fire_total_zip. Print Assumptions C01_fire_total_group.
 
 (* non-vacuity: a history that reaches a state satisfying all premises of C01_join: child 0 pends, its waker fires after the poll *)
 Example C01_witness :
